@@ -190,10 +190,16 @@ pub struct Violation {
     pub property: String,
     pub oracle: String,
     pub detail: String,
+    /// optional: value for `extra.only` that restricts a sweep to the single failing trial
+    pub narrow: Option<Value>,
 }
 
 impl Violation {
+    pub fn narrowed(mut self, only: Value) -> Self {
+        self.narrow = Some(only);
+        self
+    }
     pub fn new(property: &str, oracle: &str, detail: impl Into<String>) -> Self {
-        Violation { property: property.into(), oracle: oracle.into(), detail: detail.into() }
+        Violation { property: property.into(), oracle: oracle.into(), detail: detail.into(), narrow: None }
     }
 }
